@@ -52,7 +52,7 @@ func (rt *runtime) newNativeFunctionObject(name, file string, line int, native n
 	o := rt.newNativeFunctionProperty(name, file, line, native, length)
 	o.defineOwnProperty("caller", property{
 		value: propertyGetSet{
-			rt.newNativeFunctionProperty("get", "internal", 0, func(fc FunctionCall) Value {
+			rt.newFunctionPrototypeLinked(rt.newNativeFunctionProperty("get", "internal", 0, func(fc FunctionCall) Value {
 				// The runtime and the function are those of the call, not those
 				// captured here: the getter is shared with copies of the runtime.
 				rt, o := fc.runtime, fc.This.object()
@@ -67,12 +67,19 @@ func (rt *runtime) newNativeFunctionObject(name, file string, line int, native n
 				}
 
 				return nullValue
-			}, 0),
+			}, 0)),
 			&nilGetSetObject,
 		},
 		mode: 0o000,
 	}, false)
 	return o
+}
+
+// newFunctionPrototypeLinked gives an internal function object the
+// [[Prototype]] every function has (15.3.5); its creator links nothing.
+func (rt *runtime) newFunctionPrototypeLinked(fn *object) *object {
+	fn.prototype = rt.global.FunctionPrototype
+	return fn
 }
 
 // bindFunctionObject.
